@@ -28,6 +28,8 @@ package mem
 //@ func zip(ss []string, rr []string) (r []string)
 
 //@ func (g *gen) genFunc(typ *types.Signature) (err error)
+// the clauses below are written out per arity, up to 3 parameters and 3 results
+//@ max-arity: 3
 //@ emits: decls
 //@ serves: mem len=1 kind=Signature typ=typs[0]
 //@ o-sig: (f $typ) (r $typ)
